@@ -76,6 +76,9 @@ def main():
         unplace()
         res["demo_clean_rc"] = rc_clean
         rc, out = sh(f"git apply {patch}", wt)
+        if rc != 0:
+            # the tree may have moved on since the change was written (a later fix: commit)
+            rc, out = sh(f"git apply --3way {patch} && git reset -q", wt)
         res["patch_applies"] = rc == 0
         if rc != 0:
             res["error"] = "patch does not apply: " + out[-500:]
